@@ -440,6 +440,8 @@ impl Container for DynamicContainer {
         let archive_id = entry.archive_id();
         let archive_offset = entry.archive_offset();
         let entry_size = entry.size;
+        #[cfg(feature = "verif-hooks")]
+        crate::verif_hooks::sched_point("dynamic.read.after_index_lookup");
 
         // Read from archive.
         // Truncation detection: CASC's `casc::Dynamic::Read`
@@ -478,6 +480,8 @@ impl Container for DynamicContainer {
             }
         };
 
+        #[cfg(feature = "verif-hooks")]
+        crate::verif_hooks::sched_point("dynamic.read.after_archive_read");
         // Touch LRU cache to keep this key from eviction.
         if let Some(ref lru) = self.lru {
             let ekey_9: [u8; 9] = key[..9].try_into().unwrap_or([0; 9]);
@@ -511,6 +515,8 @@ impl Container for DynamicContainer {
             let mut archive = self.archive.write();
             archive.write_content(data, false)?
         };
+        #[cfg(feature = "verif-hooks")]
+        crate::verif_hooks::sched_point("dynamic.write.after_archive_write");
 
         debug!(
             "wrote key {} to archive {} at offset {:#x}, size {}",
@@ -532,6 +538,8 @@ impl Container for DynamicContainer {
                 total_size,
             )?;
         }
+        #[cfg(feature = "verif-hooks")]
+        crate::verif_hooks::sched_point("dynamic.write.after_index_add");
 
         // Touch LRU cache to keep this key from eviction.
         if let Some(ref lru) = self.lru {
@@ -539,6 +547,8 @@ impl Container for DynamicContainer {
             lru.write().touch(&ekey_9);
         }
 
+        #[cfg(feature = "verif-hooks")]
+        crate::verif_hooks::sched_point("dynamic.write.before_save");
         // Persist the updated index to disk
         {
             let index = self.index.read();
@@ -562,6 +572,8 @@ impl Container for DynamicContainer {
             let mut index = self.index.write();
             index.remove_entry(&ekey)
         };
+        #[cfg(feature = "verif-hooks")]
+        crate::verif_hooks::sched_point("dynamic.remove.after_index_remove");
 
         if removed {
             debug!("removed key {} from index", hex::encode(&key[..9]));
